@@ -18,7 +18,10 @@ generators: this property is about seeds):
       min-entropy >= 1 bit (closed form / mc/refmodel/bornlaw.py): all 28 pairs of sample sequences differ.
 (iv)  THREADS / PARTITIONS (``--only native | tsan | numba | omp``).  The native permanent and its Laplace
       variant under every job count min(4*hw, idx_max) the interposed hardware_concurrency() can produce
-      (hw = 0, 1..16, 17, 32, 64 -> job counts 1..128), every team size the runtime may grant (1..jobs; quick: a
+      (hw = 0, 1..16, 17, 32, 64 -> job counts 4, 8, .., 64, 68, 128 and idx_max itself, on a catalogue with
+      idx_max in {1, 2, 3, 4, 6, 8, 9, 18, 24, 32, 48, 60, 64, 75, 120, 128} plus a family of row vectors with
+      idx_max = k for every k <= 64 except 31, 37, 41, 43, 47, 53, 59, 61, 62 -> every job count 1..64 but those),
+      every team size the runtime may grant (1..jobs; quick: a
       subset) and every order in which the threads of the team run (all permutations for teams <= 4, ascending /
       descending / interleaved / rotations beyond) through the GOMP shim (mc/native_sched.py, sequentialised, under
       ASan+UBSan), a free-running ThreadSanitizer build of the same driver, the real pybind module under
@@ -84,6 +87,11 @@ def _items(tier, builddir, vseed):
                 group = []
     if group:
         items.append(("native", builddir, group))
+    # the family rows -> idx_max = k for (almost) every k <= 64: the job count k itself
+    nfam = len(KN.family_catalogue(vseed))
+    chunk = 12 if tier == "quick" else 6
+    for lo in range(0, nfam, chunk):
+        items.append(("native", builddir, list(range(lo, min(nfam, lo + chunk))), True))
     items.append(("tsan", builddir))
     for name in P.ENTROPY_PROGRAMS:
         items.append(("seeds", name))
@@ -144,6 +152,7 @@ def run(ctx, builddir):
         "max_schedule_depth": c.get("max_schedule_depth", 0),
         "native_partitions": c.get("partitions", 0),
         "native_max_job_count": c.get("max_job_count", 0),
+        "native_job_counts_reached": sorted(int(k.split("_")[1]) for k in c if k.startswith("jobcount_")),
         "native_thread_orders_not_applicable": c.get("native_order_mismatch", 0),
         "tsan_runs": c.get("tsan_runs", 0),
         "numba_thread_configs": c.get("numba_configs", 0),
@@ -178,7 +187,7 @@ def replay(ctx, case, signature):
     elif part == "seeds":
         _w_seeds(ctx, ("seeds", case["program"]))
     elif part == "native":
-        _w_native(ctx, ("native", build.ensure_built(), case["cases"]), only_schedule=case.get("schedule"))
+        _w_native(ctx, ("native", build.ensure_built(), case["cases"], case.get("family", False)), only_schedule=case.get("schedule"))
     elif part == "tsan":
         _w_tsan(ctx, ("tsan", build.ensure_built()))
     elif part == "numba":
@@ -483,14 +492,15 @@ def _w_native(ctx, item, only_schedule=None):
     from mc import c11_kernels as KN
     from mc import native_sched as NS
 
-    _, builddir, indices = item
-    cat = KN.perm_catalogue(ctx.seed, ctx.tier)
+    _, builddir, indices = item[:3]
+    family = len(item) > 3 and bool(item[3])
+    cat = KN.family_catalogue(ctx.seed) if family else KN.perm_catalogue(ctx.seed, ctx.tier)
     cases = []
     meta = []
     for ci in indices:
         name, kernel, mat, rows, cols = cat[ci]
         cm = KN.to_complex(mat)
-        scheds = [(0, None, "asc")] + KN.schedules(rows, ctx.tier)
+        scheds = [(0, None, "asc")] + (KN.family_schedules(rows, ctx.tier) if family else KN.schedules(rows, ctx.tier))
         if only_schedule is not None:
             scheds = [(1, 1, "asc"), tuple(only_schedule)]
         for hw, team, order in scheds:
@@ -524,7 +534,7 @@ def _w_native(ctx, item, only_schedule=None):
                 reported.add(key)
                 ctx.violation(
                     sig,
-                    {"part": "native", "cases": [ci], "case_name": name, "rows": list(rows), "cols": list(cols), "idx_max": im, "schedule": sched, "jobs": jobs, "detail": detail},
+                    {"part": "native", "cases": [ci], "family": family, "case_name": name, "rows": list(rows), "cols": list(cols), "idx_max": im, "schedule": sched, "jobs": jobs, "detail": detail},
                     "%s(%s rows=%s cols=%s, Gray-code range %d) with hardware_concurrency()=%d -> %s jobs, team %s, thread order %s: %s"
                     % (kernel, name, list(rows), list(cols), im, hw, jobs, team, order if isinstance(order, str) or len(order) <= 8 else "%s..." % order[:8], detail),
                 )
@@ -547,6 +557,7 @@ def _w_native(ctx, item, only_schedule=None):
                 jobs_seen.add(jobs)
                 ctx.count("jobs_run", jobs)
                 _cmax(ctx, "max_job_count", jobs)
+                ctx.count("jobcount_%03d" % jobs)
             if len(vals) != len(refs):
                 viol("wrong_length", "%d values, expected %d" % (len(vals), len(refs)), jobs)
                 continue
@@ -564,7 +575,7 @@ def _w_native(ctx, item, only_schedule=None):
                 viol("differs_across_partitions", bad_part, jobs)
             if baseline is None and hw > 0 and not bad_ref:
                 baseline = vals
-        if only_schedule is None and ci == indices[0]:
+        if only_schedule is None and ci == max(indices, key=lambda i: (KN.idx_max(cat[i][3]), -i)):
             ctx.sample({"part": "native", "case": name, "kernel": kernel, "rows": list(rows), "cols": list(cols), "idx_max": im, "job_counts": sorted(jobs_seen), "partitions": len(runs)})
 
 
